@@ -202,3 +202,57 @@ package annotation
 //@   assert at "if elemsAdded > 0 {": skipped == 0
 //@   assert at "batch.Put(targetTk, val)": len(targetElems) == n0 + elemsAdded && elemsAdded > 0
 //@   assert at "if err := batch.Commit(); err != nil {": put
+
+// moveElementInLabels (C13, per-body index follows a move): the moved element is removed from the
+// index of the body it sat on (when that is not background) and added to the index of the body it now
+// sits on (when that is not background) - the label keys touched are exactly oldLabel and newLabel, each
+// under its own non-zero test.
+//@ func Data.moveElementInLabels
+//@   prop C13
+//@   safety_off
+//@   calls_havoc
+//@   modifies *
+//@   ghost triedDel bool = false
+//@   ghost triedAdd bool = false
+//@   ghostset at "tk := NewLabelTKey(oldLabel)": triedDel = true
+//@   ghostset at "tk := NewLabelTKey(newLabel)": triedAdd = true
+//@   assert at "tk := NewLabelTKey(oldLabel)": oldLabel != 0 && oldLabel != newLabel
+//@   assert at "tk := NewLabelTKey(newLabel)": newLabel != 0 && oldLabel != newLabel
+//@   assert at "if len(delta.Del) != 0 || len(delta.Add) != 0 {": (oldLabel != 0 ==> triedDel) && (newLabel != 0 ==> triedAdd)
+
+// modifyElements / storeTagElements / storeBlockElements (C13): denormalised element lists are updated by
+// read-merge-write - the stored list for the key is read, the new elements replace those at the same
+// position or are appended, and the merged list is written. Every key written by the two store loops
+// goes through that merge exactly once per map entry (ghost counter `merges`).
+//@ func Data.modifyElements
+//@   prop C13
+//@   safety_off
+//@   calls_havoc
+//@   modifies *
+//@   modifies ghost merges
+//@   ghost merges int = arbitrary()
+//@   ghost readKey storage.TKey = nil
+//@   ghostset after "storeE, err := getElements(ctx, tk)": readKey = tk
+//@   ghostset at "return putBatchElements(batch, tk, storeE)": merges = merges + 1
+//@   assert at "return putBatchElements(batch, tk, storeE)": readKey == tk
+//@   ensures result == nil ==> merges == old(merges) + 1
+
+//@ func Data.storeTagElements
+//@   prop C13
+//@   safety_off
+//@   modifies *
+//@   modifies ghost merges
+//@   ghost merges int = arbitrary()
+//@   ghost tagIters int = 0
+//@   ghostset at "tk, err := NewTagTKey(tag)": tagIters = tagIters + 1
+//@   invariant loop 1: merges == old(merges) + tagIters
+
+//@ func Data.storeBlockElements
+//@   prop C13
+//@   safety_off
+//@   modifies *
+//@   modifies ghost merges
+//@   ghost merges int = arbitrary()
+//@   ghost blkIters int = 0
+//@   ghostset at "bcoord, err := izyxStr.ToChunkPoint3d()": blkIters = blkIters + 1
+//@   invariant loop 1: merges == old(merges) + blkIters
